@@ -14,7 +14,7 @@
      NEW  integer arrays: the default fill NaN raises                  C16_int_array_nan_fill_refuted *)
 From Coq Require Import ZArith List Bool String Ascii.
 Import ListNotations.
-Require Import PyBase Funcs FuncsFacts FuncsExamples FuncsFacts2 FuncsExamples2 FuncsConv FuncsConvFacts EvalIdx EvalIdxFacts EvalIdxExamples EvalIdxWhole EvalIdxWholeExamples EvalIdxLocate EvalIdxLocateExamples EvalIdxProgram EvalIdxProgramExamples EvalIdxProgram2 EvalIdxLocateSpans.
+Require Import PyBase Funcs FuncsFacts FuncsExamples FuncsFacts2 FuncsExamples2 FuncsConv FuncsConvFacts EvalIdx EvalIdxFacts EvalIdxExamples EvalIdxWhole EvalIdxWholeExamples EvalIdxLocate EvalIdxLocateExamples EvalIdxProgram EvalIdxProgramExamples EvalIdxProgram2 EvalIdxProgram3 EvalIdxLocateSpans EvalIdxLocateRange EvalIdxInt.
 Require Fsic.Locate.Locate Fsic.Locate.LocateFacts.
 Open Scope string_scope.
 Open Scope Z_scope.
@@ -219,6 +219,16 @@ Proof. exact diff_zero_formula_refuted. Qed.
 Theorem C16_int_of_str_roundtrip (z : Z) : parse_pyint (Z_to_string z) = Some z.
 Proof. exact (parse_pyint_Z_to_string z). Qed.
 
+(* the two readings of an integer text: parse_pyint s = int(s.strip()) (brackets without backtick), parse_int_raw s = int(s)
+   (the text between backticks).  int() skips fewer characters than str.strip(): what it accepts, int(strip()) accepts with the
+   same value; the converse fails (ASCII unit separator: stripped by str.strip(), refused by int()) *)
+Theorem C16_int_accepts_implies_int_of_strip_accepts (s : string) (z : Z) : parse_int_raw s = Some z -> parse_pyint s = Some z.
+Proof. exact (parse_int_raw_implies_parse_pyint s z). Qed.
+
+Theorem C16_int_of_strip_accepts_more :
+  parse_pyint ("1" ++ String (ascii_of_nat 31) "") = Some 1 /\ parse_int_raw ("1" ++ String (ascii_of_nat 31) "") = None.
+Proof. exact parse_pyint_not_raw. Qed.
+
 (* the slice [pa : pb+1 : s] selects exactly pa, pa+s, ... up to and including pb (C10's inclusive label slice);
    nothing if pb < pa; open ends mean the ends of the span *)
 Theorem C16_inclusive_slice_positions (n pa pb : nat) (s : Z) (q : nat) :
@@ -360,6 +370,8 @@ Section C16_rewrite.
       match parse_pyint g with Some z => Ret ("[" ++ Z_to_string z ++ "]") | None => Raise ValueError end.
   Proof. exact (positional_index_rewrite has locate g). Qed.
 
+  (* NB index_sem reads each item of a subscript with int()'s grammar; it is validated against CPython on canonical spellings
+     (what the rewriter writes).  Python's own literal grammar differs off that class: 007 is a SyntaxError, --1 is legal. *)
   Theorem C16_positional_index_meaning_kept (n : nat) (g : string) (z : Z) :
     no_colon g -> parse_pyint g = Some z -> index_sem n (Z_to_string z) = index_sem n g.
   Proof. exact (positional_index_meaning_kept n g z). Qed.
@@ -590,6 +602,28 @@ Section C16_label_indexing.
   Proof. exact (program_eval_text gl ct sp prog ts tail). Qed.
 End C16_label_indexing.
 
+(* eval() of a program, end to end, on any span of the C10 model: CPython evaluates the backtick-free text in which every
+   bracket is replaced by its C10 position text (or the text as written when it has no backtick), in the namespace
+   helpers < variables < locals; the container's variables and every other existing dict are unchanged *)
+Theorem C16_eval_program
+        (V : Type) (gl : list Locate.label -> Locate.label -> outcome Locate.loc) (ct : list Locate.label -> Locate.label -> bool)
+        (sp : Locate.span) (pyeval : string -> ns V -> pyres V)
+        (dh : dheap V) (tbl : nat) (vars : ns V) (locals : option (ns V)) (bi : option nat)
+        (prog : list pseg) (ts : list string) (tail : string) :
+  Forall pseg_ok prog -> has_char ch_open tail = false ->
+  Forall (fun p => has_char ch_tick (ps_pre p) = false) prog -> has_char ch_tick tail = false ->
+  Forall2 (fun p t => b_dst gl ct sp (ps_b p) = Ret t) prog ts ->
+  (forall l, bi = Some l -> (l < List.length dh)%nat) ->
+  let r := eval_M V (c10_has ct sp) (c10_locate gl sp) pyeval dh tbl vars (program_text prog tail) locals bi in
+  exists text,
+    snd r = convert V (pyeval text (ns_update V (ns_update V (base_dict V dh tbl bi) vars) (locals_ns V locals))) /\
+    has_char ch_tick text = false /\
+    (has_char ch_tick (program_text prog tail) = true -> text = program_subst prog ts tail) /\
+    (has_char ch_tick (program_text prog tail) = false -> text = program_text prog tail) /\
+    snd (fst r) = vars /\
+    (forall l', (l' < List.length dh)%nat -> bi <> Some l' -> dict_at V (fst (fst r)) l' = dict_at V dh l').
+Proof. exact (eval_program V gl ct sp pyeval dh tbl vars locals bi prog ts tail). Qed.
+
 (* the concrete spans on which the correspondence check compares the rewriter with fsic (lists / unique pandas indexes: SpanSeq;
    NumPy arrays: SpanArr) ARE spans of the C10 model seen through the bridge: what K validates is the function the theorems
    above speak about (tr_label maps str / int labels to the C10 model's labels) *)
@@ -599,6 +633,14 @@ Theorem C16_checked_list_span_is_C10_span
   eval_text_span (SpanSeq ls) s
   = eval_text (c10_has ct (Locate.SList (map tr_label ls))) (c10_locate gl (Locate.SList (map tr_label ls))) s.
 Proof. exact (eval_text_seq_is_c10 gl ct ls s). Qed.
+
+(* range(a, a+n): the list of its integer labels vs the C10 model's arithmetic range.index *)
+Theorem C16_checked_range_span_is_C10_span
+        (gl : list Locate.label -> Locate.label -> outcome Locate.loc) (ct : list Locate.label -> Locate.label -> bool)
+        (a : Z) (n : nat) (s : string) :
+  eval_text_span (SpanSeq (map (fun i => LInt (a + Z.of_nat i)) (seq 0 n))) s
+  = eval_text (c10_has ct (Locate.SRange a 1 n)) (c10_locate gl (Locate.SRange a 1 n)) s.
+Proof. exact (eval_text_range_is_c10 gl ct a n s). Qed.
 
 Theorem C16_checked_numpy_span_is_C10_span
         (gl : list Locate.label -> Locate.label -> outcome Locate.loc) (ct : list Locate.label -> Locate.label -> bool)
@@ -835,3 +877,7 @@ Print Assumptions C16_int_array_nan_fill_refuted.
 Print Assumptions C16_program_eval_text.
 Print Assumptions C16_checked_list_span_is_C10_span.
 Print Assumptions C16_checked_numpy_span_is_C10_span.
+Print Assumptions C16_checked_range_span_is_C10_span.
+Print Assumptions C16_eval_program.
+Print Assumptions C16_int_accepts_implies_int_of_strip_accepts.
+Print Assumptions C16_int_of_strip_accepts_more.
